@@ -1,10 +1,10 @@
 //! C15 — in-process side: the comparator's real scanning loop on a given diff-tree output
 //! (hook verif_tracked_paths_match_on_output) and the real base_commit_sha rewrite.
-use crate::sexp::{self, byte_list, sym, Sx};
+use crate::sexp::{self, byte_list, cps, sym, Sx};
 use git_ai::authorship::authorship_log_serialization::AuthorshipLog;
 use git_ai::authorship::rebase_authorship::{
-    verif_remap_note_content_for_target_commit, verif_tracked_paths_match_on_output,
-    verif_try_remap_base_commit_sha_field,
+    verif_load_commit_metadata_batch, verif_remap_note_content_for_target_commit,
+    verif_tracked_paths_match_on_output, verif_try_remap_base_commit_sha_field,
 };
 use git_ai::git::repository::{find_repository_in_path, Repository};
 use std::cell::RefCell;
@@ -100,11 +100,56 @@ pub fn mknote(body: &str) -> String {
     Sx::L(vec![sym("note"), byte_list(s.as_bytes())]).show()
 }
 
+/// in: (CONTENT ...)  commit objects as code points.  Each is written into the scratch repository
+/// ($C15_REPO) with `git hash-object -t commit -w --stdin --literally`; then ONE call of the real
+/// load_commit_metadata_batch for all of them.   out: ((tree (parent)?) ...) in input order | err
+pub fn meta(body: &str) -> String {
+    use std::io::Write;
+    use std::process::{Command, Stdio};
+    let xs = sexp::parse_many(body).expect("sexp");
+    let repo_path = std::env::var("C15_REPO").expect("C15_REPO");
+    let mut shas = Vec::new();
+    for c in xs[0].list() {
+        let text = c.string();
+        let mut child = Command::new("/usr/bin/git")
+            .args(["-C", &repo_path, "hash-object", "-t", "commit", "-w", "--stdin", "--literally"])
+            .stdin(Stdio::piped())
+            .stdout(Stdio::piped())
+            .stderr(Stdio::null())
+            .spawn()
+            .expect("git");
+        child.stdin.take().unwrap().write_all(text.as_bytes()).unwrap();
+        let out = child.wait_with_output().expect("git");
+        let sha = String::from_utf8_lossy(&out.stdout).trim().to_string();
+        assert!(sha.len() >= 40, "hash-object failed");
+        shas.push(sha);
+    }
+    with_repo(|repo, _| match verif_load_commit_metadata_batch(repo, &shas) {
+        Err(_) => "err".to_string(),
+        Ok(v) => Sx::L(
+            shas.iter()
+                .map(|sha| match v.iter().find(|(s, _, _)| s == sha) {
+                    None => sym("absent"),
+                    Some((_, t, p)) => Sx::L(vec![
+                        cps(t),
+                        match p {
+                            None => Sx::L(vec![]),
+                            Some(q) => Sx::L(vec![cps(q)]),
+                        },
+                    ]),
+                })
+                .collect(),
+        )
+        .show(),
+    })
+}
+
 pub fn dispatch(mode: &str) -> Option<fn(&str) -> String> {
     match mode {
         "c15-cmp" => Some(cmp),
         "c15-remap" => Some(remap),
         "c15-mknote" => Some(mknote),
+        "c15-meta" => Some(meta),
         _ => None,
     }
 }
